@@ -92,6 +92,7 @@ def unit_C02t(src):
     u.spec_texts.append(lib.text())
     u.spec_texts.append(c_matrix.cf_spec())
     hints, polys, lemmas = c_matrix.c02_hints(F)
+    u.hint_packs.append((lambda im, f: f.name in ('determinant', 'invert') and im is not None and im.module == 'matrix', polys, lemmas))
     u.contract_fns.insert(0, c_matrix.contracts_c02(hints))
     u.contract_fns.insert(0, c_matrix.contract_det_sub)
     u.select(Sel('SquareMatrix', c_matrix.MAT, ['determinant', 'invert']),
@@ -109,6 +110,7 @@ def unit_C08m(src, space):
     u.spec_texts.append(lib.text())
     u.spec_texts.append(c_matrix.cf_spec())
     hints, polys, lemmas = c_matrix.c02_hints(F)
+    u.hint_packs.append((lambda im, f: f.name in ('determinant', 'invert') and im is not None and im.module == 'matrix', polys, lemmas))
     u.contract_fns.insert(0, c_matrix.contracts_c02(hints))
     u.contract_fns.insert(0, c_matrix.contract_det_sub)
     u.select(Sel('SquareMatrix', c_matrix.MAT, ['determinant', 'invert']),
@@ -183,6 +185,7 @@ def full_base(u, angle_kind='Rad'):
     u.spec_texts.append(c_matrix.cf_spec())
     u.spec_texts.append(c_angle.text_specs())
     hints, polys, lemmas = c_matrix.c02_hints(F)
+    u.hint_packs.append((lambda im, f: f.name in ('determinant', 'invert') and im is not None and im.module == 'matrix', polys, lemmas))
     u.contract_fns.insert(0, c_matrix.contracts_c02(hints))
     u.contract_fns.insert(0, c_matrix.contract_det_sub)
     u.contract_fns += [c_quat.contracts, c_angle.contracts]
@@ -207,9 +210,11 @@ def complete_base(u, angle_kind='Rad'):
     u.spec_texts.append(c_metric.text_specs())
     u.spec_texts.append(c_arc.text_specs())
     rh, rp = c_rot.shape_hints(F)
+    u.hint_packs.append((lambda im, f: im is not None and im.module == 'matrix' and re.match(r'from_angle|from_axis_angle', f.name) is not None, rp, []))
     u.contract_fns.insert(0, c_rot.contracts(rh, angle_kind))
     c_rot.select_c06(u)
     hints, polys = c_conv.shape_hints(F)
+    u.hint_packs.append((lambda im, f: im is not None and f.name == 'from' and ('Quaternion' in im.header or 'Euler' in im.header), polys, []))
     u.contract_fns.insert(0, c_conv.contracts(hints, angle_kind))
     c_conv.select(u)
     u.contract_fns.insert(0, c_metric.contracts)
@@ -394,6 +399,7 @@ def unit_conv(src, prop, angle_kind='Rad'):
     u.spec_texts.append(lib.text())
     u.spec_texts.append(c_conv.text_specs())
     rh, rp = c_rot.shape_hints(F)
+    u.hint_packs.append((lambda im, f: im is not None and im.module == 'matrix' and re.match(r'from_angle|from_axis_angle', f.name) is not None, rp, []))
     u.contract_fns.insert(0, c_rot.contracts(rh, angle_kind))
     c_rot.select_c06(u)
     hints, polys = c_conv.shape_hints(F)
@@ -430,14 +436,17 @@ def unit_C08(src, k):
     u.spec_texts.append(c_conv.text_specs())
     u.spec_texts.append(c_xform.text_specs(k))
     rh, rp = c_rot.shape_hints(F)
+    u.hint_packs.append((lambda im, f: im is not None and im.module == 'matrix' and re.match(r'from_angle|from_axis_angle', f.name) is not None, rp, []))
     u.contract_fns.insert(0, c_rot.contracts(rh, 'Rad'))
     c_rot.select_c06(u)
     hints, polys = c_conv.shape_hints(F)
+    u.hint_packs.append((lambda im, f: im is not None and f.name == 'from' and ('Quaternion' in im.header or 'Euler' in im.header), polys, []))
     u.contract_fns.insert(0, c_conv.contracts(hints, 'Rad'))
     c_conv.select(u)
     u.contract_fns.insert(0, c_xform.contracts(k))
     c_xform.select(u, k)
     u.scoped_subst.append((lambda im: 'Decomposed' in im.header, {'P': 'P_', 'R': 'R_', 'V': 'V_'}))
+    u.field_types_override = {'Decomposed': [re.match(r'[A-Za-z0-9]+', I[x]).group(0) for x in ('P', 'R', 'V')] + (['Matrix4'] if k != 'b2' else ['Matrix3'])}
     u.assoc_fix.update({'P_::Diff': 'V_', 'P_::Scalar': 'Sc'})
     u.extra_prelude.append('verus! {\npub type P_ = %s;\npub type R_ = %s;\npub type V_ = %s;\n}\n' % (I['P'], I['R'], I['V']))
     u.trait_extras['Transform'] = dict(
@@ -503,9 +512,11 @@ def unit_C18(src):
     u.spec_texts.append(c_conv.text_specs())
     u.spec_texts.append(c_approx.text_specs())
     rh, rp = c_rot.shape_hints(F)
+    u.hint_packs.append((lambda im, f: im is not None and im.module == 'matrix' and re.match(r'from_angle|from_axis_angle', f.name) is not None, rp, []))
     u.contract_fns.insert(0, c_rot.contracts(rh, 'Rad'))
     c_rot.select_c06(u)
     hints, polys = c_conv.shape_hints(F)
+    u.hint_packs.append((lambda im, f: im is not None and f.name == 'from' and ('Quaternion' in im.header or 'Euler' in im.header), polys, []))
     u.contract_fns.insert(0, c_conv.contracts(hints, 'Rad'))
     c_conv.select(u)
     u.contract_fns.insert(0, c_approx.contracts)
@@ -531,9 +542,11 @@ def unit_arc(src, prop):
     u.spec_texts.append(c_conv.text_specs())
     u.spec_texts.append(c_arc.text_specs())
     rh, rp = c_rot.shape_hints(F)
+    u.hint_packs.append((lambda im, f: im is not None and im.module == 'matrix' and re.match(r'from_angle|from_axis_angle', f.name) is not None, rp, []))
     u.contract_fns.insert(0, c_rot.contracts(rh, 'Rad'))
     c_rot.select_c06(u)
     hints, polys = c_conv.shape_hints(F)
+    u.hint_packs.append((lambda im, f: im is not None and f.name == 'from' and ('Quaternion' in im.header or 'Euler' in im.header), polys, []))
     u.contract_fns.insert(0, c_conv.contracts(hints, 'Rad'))
     c_conv.select(u)
     u.spec_texts.append(c_metric.text_specs())
@@ -583,9 +596,11 @@ def unit_C09(src, k):
     u.spec_texts.append(c_xform.text_specs(k))
     u.spec_texts.append(c_look.text_specs())
     rh, rp = c_rot.shape_hints(F)
+    u.hint_packs.append((lambda im, f: im is not None and im.module == 'matrix' and re.match(r'from_angle|from_axis_angle', f.name) is not None, rp, []))
     u.contract_fns.insert(0, c_rot.contracts(rh, 'Rad'))
     c_rot.select_c06(u)
     hints, polys = c_conv.shape_hints(F)
+    u.hint_packs.append((lambda im, f: im is not None and f.name == 'from' and ('Quaternion' in im.header or 'Euler' in im.header), polys, []))
     u.contract_fns.insert(0, c_conv.contracts(hints, 'Rad'))
     c_conv.select(u)
     u.contract_fns.insert(0, c_metric.contracts)
@@ -596,6 +611,7 @@ def unit_C09(src, k):
     u.contract_fns.insert(0, c_look.contracts)
     c_look.select(u, space)
     u.scoped_subst.append((lambda im: 'Decomposed' in im.header, {'P': 'P_', 'R': 'R_', 'V': 'V_'}))
+    u.field_types_override = {'Decomposed': [re.match(r'[A-Za-z0-9]+', I[x]).group(0) for x in ('P', 'R', 'V')] + (['Matrix4'] if k != 'b2' else ['Matrix3'])}
     u.assoc_fix.update({'P_::Diff': 'V_', 'P_::Scalar': 'Sc'})
     u.extra_prelude.append('verus! {\npub type P_ = %s;\npub type R_ = %s;\npub type V_ = %s;\n}\n' % (I['P'], I['R'], I['V']))
     u.trait_extras['Transform'] = dict(
